@@ -10,6 +10,7 @@ import DimodProofs.C02Init
 import DimodProofs.C02ViewBridge
 import DimodProofs.C02PyHist
 import DimodProofs.C02PolyH
+import DimodProofs.C02FromHising
 import Properties.C04
 
 /-! # C02 — changing between spin and binary representation never changes any energy
@@ -579,5 +580,28 @@ theorem poly_from_hising_offset_partial {R : Type} [CommRing R] (h : ODict Nat R
   simp [termProd]
 
 example : polyToHuboOf true [([0, 1], (1 : Rat))] = ([([1], -2), ([0], -2), ([0, 1], 4)], 1) := by decide +kernel
+
+
+/-! ## round 7: `from_hising` in full, the split of a relabelling into safe sub-mappings -/
+
+/-- **`from_hising(h, J, offset)`** (lifts `poly_from_hising_offset_partial`): for every dict `J` (distinct keys) none of whose keys is a
+    `(k,)` of `h` and — when an offset is given — none of whose keys is the empty term, the polynomial built is
+    `Σ h·s + Σ J·Πs + offset` at every `s`.  This is exactly the set of `J` the code handles: `poly.update(J)` and
+    `poly[frozenset([])] = offset` overwrite equal keys (witnesses below). -/
+theorem poly_from_hising_energy {R : Type} [CommRing R] (h : ODict Nat R) (J : Poly R) (o : Option R) (s : Nat → R)
+    (hJ : (J.map (·.1)).Nodup) (hlin : ∀ tb ∈ J, ∀ e ∈ h, tb.1 ≠ [e.1]) (hconst : o.isSome → ∀ tb ∈ J, tb.1 ≠ []) :
+    polySpec s (polyFromHising h J o) = hSum s h + polySpec s J + o.getD 0 :=
+  polyFromHising_energy h J o s hJ hlin hconst
+
+/-- the hypotheses are met by a non-trivial input: `h = {0: 1, 1: -2}`, `J = {(0,1): 3, (0,1,2): 1/2}`, offset `5` -/
+example : polySpec (fun v => if v = 1 then (-1 : Rat) else 1) (polyFromHising [(0, 1), (1, -2)] [([0, 1], 3), ([0, 1, 2], 1/2)] (some 5))
+    = 1 + 2 + (-3) + (-1/2) + 5 := by decide +kernel
+
+/-- without the guard on the empty term the statement fails: `J = {frozenset(): 1}` with offset `2` yields the constant `2`, not
+    `1 + 2` (replayed on the real code by the harness: site `BinaryPolynomial.from_hising`, class `frozenset() key in J`) -/
+example : polySpec (fun _ => (1 : Rat)) (polyFromHising [] [([], 1)] (some 2)) = 2 := by decide +kernel
+
+/-- without the guard on `(k,)` it fails as well: `h = {0: 1}`, `J = {(0,): 5}` yields `5·s₀`, not `6·s₀` -/
+example : polySpec (fun _ => (1 : Rat)) (polyFromHising [(0, 1)] [([0], 5)] none) = 5 := by decide +kernel
 
 end C02
